@@ -117,6 +117,7 @@ def mechFacts : List (String × String) :=
    ("loopVarKey allocates a fresh value", "true"),
    ("rangeInt keeps the value object of the bound", "false"),
    ("call copies the results when the callee returns", "true"),
+   ("switchIfStmt chains every condition of a case list", "true"),
    ("a define of the loop variable's name in the loop body is a nop", "false"),
    ("identExpr takes level and index from scope.lookup", "true"),
    ("loopVarForEnd copies back", "true")]
